@@ -154,7 +154,11 @@ def run_body(view, bs):
     fn = {"vec": c_seq, "set": c_seq, "array": c_array, "tuple": c_tuple, "map": c_map, "option": c_option,
           "box": c_box, "cs": c_cs, "jvalue": c_jvalue}[kind]
     fs, ob = fn(view, bs)
-    return fs, ob, kind
+    # "a fault at every position makes the call fail": the accumulator is never reset / replaced by something
+    # that does not contain it once examination has begun
+    import flow
+    k_fs, k_ob = flow.acc_keep(view, bs, "C06.KEEP")
+    return fs + k_fs, ob + k_ob, kind
 
 
 # ------------------------------------------------------------------ sequences
